@@ -129,7 +129,18 @@ func cmdCheck(args []string) int {
 	var n int
 	var lines []string
 	if *noEvidence {
+		known := loadKnown(verifDir())
 		for _, f := range c.Findings {
+			isKnown := false
+			for _, k := range known {
+				if k.Property == id && k.Status == "known" && k.Key == f.Key {
+					isKnown = true
+				}
+			}
+			if isKnown {
+				lines = append(lines, fmt.Sprintf("KNOWN-FINDING: property=%s %s (%s at %s)", id, k0(known, id, f.Key), f.Key, f.Pos))
+				continue
+			}
 			n++
 			lines = append(lines, fmt.Sprintf("%s rule=%s at %s in %s: %s", strings.ToUpper(f.Kind), f.Rule, f.Pos, f.Func, firstLine(f.Msg)))
 			lines = append(lines, fmt.Sprintf("VIOLATION property=%s replay=-", id))
@@ -229,4 +240,13 @@ func cmdDump(args []string) int {
 		}
 	}
 	return 0
+}
+
+func k0(known []KnownEntry, id, key string) string {
+	for _, k := range known {
+		if k.Property == id && k.Status == "known" && k.Key == key {
+			return k.What
+		}
+	}
+	return ""
 }
